@@ -11,8 +11,8 @@ PROGRAMS = ["forms"]
 RUNS = {"quick": 3000, "thorough": 150000}
 
 FNS = ["plain", "forloop", "fortuple", "nestloop", "whileloop", "tryexc", "bareexc",
-       "forstar", "withcm", "withret", "retnone", "gen", "genloop", "genretry", "callsother", "tup_tuple", "K.meth", "deco", "clo"]
-GEN_FNS = ("gen", "genloop", "genretry")
+       "forstar", "withcm", "withret", "retnone", "gen", "genloop", "genretry", "genstop", "callsother", "tup_tuple", "K.meth", "deco", "clo"]
+GEN_FNS = ("gen", "genloop", "genretry", "genstop")
 
 
 def loop_vars(fnir):
@@ -42,6 +42,8 @@ def loop_vars(fnir):
                 walk(s[3] or []); walk(s[4] or [])
             elif s[0] == "with":
                 walk(s[2])
+            elif s[0] == "with2":
+                walk(s[3])
             elif s[0] == "pick":
                 for arm in s[1]:
                     walk(arm)
@@ -130,6 +132,8 @@ def gen(rng, tier, quarantine=()):
                 k = rng.choice(["gen_next"] * 4 + ["gen_send"] * 3 + ["gen_throw", "gen_close", "gen_drop"])
                 ops.append({"op": k, "gen": g, "tape": gen_tape(rng, 8, odd=0.4),
                             "faults": gen_faults(rng, 8, rng.choice([0, 0, 0, 1]))})
+                if k == "gen_throw" and rng.random() < 0.4:
+                    ops[-1]["exc"] = "stop"
                 if k == "gen_drop":
                     dropped = True
                     break
